@@ -1,7 +1,8 @@
 (* C13 — Output ordering is a deterministic function of the aggregated data.
    Property theorems only; proofs live in Proofs/Sort*.v. Model: Model/Sort.v
-   (pkg/aggregation/sorting/*.go, cmd/helpers/sorting.go). ByNameSmart is modelled after the repair
-   fixes/C13-bynamesmart.patch (#19a); ByContextualEx/ByDate as they are (#19b, recorded). *)
+   (pkg/aggregation/sorting/*.go, cmd/helpers/sorting.go), of /repo after the repairs
+   C13-bynamesmart, C13-contextual-ties, C13-stateful-comparators. ByDate still carries closure
+   state (C13-stateful-date, recorded: see props/C13.json). *)
 From Coq Require Import List Permutation Sorted Bool NArith ZArith String.
 From RareV Require Import Base.Hex Gen.GenSortSets Model.Sort
   Proofs.SortGeneric Proofs.SortOrders Proofs.SortCtx Proofs.SortCheck.
@@ -108,23 +109,56 @@ Proof.
 Qed.
 Print Assumptions C13_numeric_pinned_refuted.
 
-(* ---- contextual ---- *)
+(* ---- contextual (after the repairs C13-contextual-ties and C13-stateful-comparators) ---- *)
+(* `contextual` is a strict total order on distinct keys: irreflexive, asymmetric, transitive,
+   total, on EVERY key set (weekdays, months, numbers, text and any mixture) *)
+Theorem C13_contextual_total : forall l : list key, NoDup (map kname l) -> strict_order_on ctx_lt l.
+Proof. exact ctx_lt_strict. Qed.
+Print Assumptions C13_contextual_total.
+(* the comparer built by ByContextual() is that function of the two keys: its answer never
+   depends on what it was asked before *)
+Theorem C13_contextual_stateless : forall st a b, by_contextual st a b = (ctx_lt a b, st).
+Proof. exact by_contextual_pure. Qed.
+Theorem C13_contextual_history_free : forall qs st,
+  fst (srun by_contextual st qs) = map (fun q => ctx_lt (fst q) (snd q)) qs.
+Proof. exact srun_contextual. Qed.
+(* full strength, no key-set restriction: every arrangement of a set of distinct keys sorts to the
+   same sequence (from any closure state) *)
+Theorem C13_contextual_deterministic : forall (l : list key), NoDup (map kname l) ->
+  forall arr st, Permutation l arr -> fst (sisort by_contextual st arr) = isort ctx_lt l.
+Proof. exact sisort_contextual. Qed.
+Print Assumptions C13_contextual_deterministic.
+
 (* Clause "contextual orders weekday and month names by calendar position": for names and
-   abbreviations of the generated tables in any letter case, a fresh sorter compares the day of
-   the week / the month of the year, and the table position IS the index of the name it abbreviates. *)
+   abbreviations of the generated tables in any letter case the order is the day of the week /
+   the month of the year, the table position IS the index of the name it abbreviates, and several
+   spellings of one day or month (mon, Monday) are ordered by the numeric/text fallback. *)
 Theorem C13_contextual_calendar_weekdays : forall a b pa pb,
   lookup set_weekdays (lower (kname a)) = Some pa ->
   lookup set_weekdays (lower (kname b)) = Some pb ->
-  fst (by_contextual cs0 a b) = (pa <? pb)%Z /\
+  ctx_lt a b = (if (pa =? pb)%Z then by_name_smart a b else (pa <? pb)%Z) /\
   (0 <= pa < 7)%Z /\ is_prefix (lower (kname a)) (nth (Z.to_nat pa) weekday_names []) = true.
 Proof. exact contextual_weekdays. Qed.
 Theorem C13_contextual_calendar_months : forall a b pa pb,
   lookup set_months (lower (kname a)) = Some pa ->
   lookup set_months (lower (kname b)) = Some pb ->
-  fst (by_contextual cs0 a b) = (pa <? pb)%Z /\
+  ctx_lt a b = (if (pa =? pb)%Z then by_name_smart a b else (pa <? pb)%Z) /\
   (0 <= pa < 12)%Z /\ is_prefix (lower (kname a)) (nth (Z.to_nat pa) month_names []) = true.
 Proof. exact contextual_months. Qed.
 Print Assumptions C13_contextual_calendar_months.
+(* mixtures: keys outside every set first (in the numeric order), then weekdays, then months *)
+Theorem C13_contextual_classes : forall a b,
+  (fst (ctx_rank a) < fst (ctx_rank b))%Z -> ctx_lt a b = true /\ ctx_lt b a = false.
+Proof. exact contextual_classes. Qed.
+Theorem C13_contextual_class_of : forall a,
+  (forall pa, lookup set_weekdays (lower (kname a)) = Some pa -> ctx_rank a = (0%Z, pa)) /\
+  (forall pa, lookup set_months (lower (kname a)) = Some pa -> ctx_rank a = (1%Z, pa)) /\
+  (lookup set_weekdays (lower (kname a)) = None -> lookup set_months (lower (kname a)) = None ->
+   ctx_rank a = ((-1)%Z, 0%Z)).
+Proof. intros a. split; [|split]; [apply rank_weekday|apply rank_month|apply rank_other]. Qed.
+Theorem C13_contextual_others : forall a b,
+  ctx_rank a = ((-1)%Z, 0%Z) -> ctx_rank b = ((-1)%Z, 0%Z) -> ctx_lt a b = by_name_smart a b.
+Proof. exact contextual_others. Qed.
 (* translator obligations: the generated tables are the calendar (every entry abbreviates, with at
    least 3 letters, the name at its position; every full name is present), lower-case, disjoint,
    and looked up weekdays first *)
@@ -141,86 +175,74 @@ Proof.
 Qed.
 Print Assumptions C13_contextual_calendar.
 
-(* The full statement (every arrangement sorts to one sequence) is FALSE of ByContextual as pinned:
-   b, wed, thu (finding #19b, recorded). The same question gets different answers depending on
-   what the closure was asked before. *)
-Theorem C13_contextual_refuted :
+(* ByContextualEx AS PINNED (before the repairs) did not satisfy the statement: b, wed, thu sorted
+   differently from different arrangements, the same question got different answers depending on
+   the history, and mon / Monday were tied. Kept as the justification of the two fix commits. *)
+Theorem C13_contextual_pinned_refuted :
   (exists l l', NoDup (map kname l) /\ Permutation l l' /\
-     fst (sisort by_contextual cs0 l) <> fst (sisort by_contextual cs0 l')) /\
+     fst (sisort by_contextual_pinned cs0 l) <> fst (sisort by_contextual_pinned cs0 l')) /\
   (exists a b hist,
-     fst (by_contextual cs0 a b) <> fst (by_contextual (snd (srun by_contextual cs0 hist)) a b)).
-Proof. split; [exact contextual_refuted|exact contextual_history_dependent]. Qed.
-Print Assumptions C13_contextual_refuted.
-(* distinct spellings of one position are tied (recorded as C13-contextual-ties) *)
-Theorem C13_contextual_ties_refuted : exists a b, kname a <> kname b /\
-  fst (by_contextual cs0 a b) = false /\ fst (by_contextual cs0 b a) = false.
-Proof. exists kmon, kMonday. split; [vm_compute; discriminate|exact contextual_tie]. Qed.
-
-(* Partial: on a key set inside one sort set with pairwise distinct positions, or without any
-   member of a sort set, the closure follows one strict total order (calendar position, resp. the
-   numeric order) from its initial state on, whatever it is asked in whatever sequence. *)
-Theorem C13_contextual_partial : forall (l : list key) f,
-  ctx_pure l = Some f -> NoDup (map kname l) ->
-  strict_order_on f l /\
-  (forall arr, Permutation l arr -> fst (sisort by_contextual cs0 arr) = isort f l) /\
-  (forall qs, (forall q, In q qs -> In (fst q) l /\ In (snd q) l) ->
-     fst (srun by_contextual cs0 qs) = map (fun q => f (fst q) (snd q)) qs).
+     fst (by_contextual_pinned cs0 a b) <>
+     fst (by_contextual_pinned (snd (srun by_contextual_pinned cs0 hist)) a b)) /\
+  (exists a b, kname a <> kname b /\
+     fst (by_contextual_pinned cs0 a b) = false /\ fst (by_contextual_pinned cs0 b a) = false).
 Proof.
-  intros l f H Hnd. destruct (ctx_pure_sound l f H Hnd) as [Hs [P [Hp0 Hp]]].
-  split; [exact Hs|]. split.
-  - intros arr Hperm.
-    destruct (sisort_pure by_contextual P f l Hp arr cs0 Hp0) as [E _].
-    { intros x Hx. eapply Permutation_in; [apply Permutation_sym; exact Hperm|exact Hx]. }
-    rewrite E. apply isort_perm_invariant; auto; [apply Hs|]. now apply NoDup_map_inv in Hnd.
-  - intros qs Hq. exact (proj1 (srun_pure by_contextual P f l Hp qs cs0 Hp0 Hq)).
+  split; [exact contextual_pinned_refuted|]. split; [exact contextual_pinned_history_dependent|].
+  exists kmon, kMonday. split; [vm_compute; discriminate|exact contextual_pinned_tie].
 Qed.
-Print Assumptions C13_contextual_partial.
-(* what ctx_pure is on the two domains *)
-Theorem C13_contextual_partial_domains : forall (k : key) (l : list key) i,
-  (infer (kname k) = Some i -> ctx_dom_set i (k :: l) = true -> ctx_pure (k :: l) = Some (pos_lt i)) /\
-  (infer (kname k) = None -> ctx_dom_none (k :: l) = true -> ctx_pure (k :: l) = Some by_name_smart).
-Proof. intros k l i. unfold ctx_pure. split; intros -> ->; reflexivity. Qed.
+Print Assumptions C13_contextual_pinned_refuted.
 
 (* ---- date ---- *)
-(* refuted as pinned: n/a, 01/02/2022, 12/31/2021 sort differently from different arrangements *)
+(* ByDate keeps closure state (layout, sticky fallback): the full statement is refuted on the
+   current tree: n/a, 01/02/2022, 12/31/2021 sort differently from different arrangements
+   (finding C13-stateful-date, recorded) *)
 Theorem C13_date_refuted :
   exists l l', NoDup (map kname l) /\ Permutation l l' /\
-    fst (sisort by_date_with_contextual (d_init, cs0) l) <>
-    fst (sisort by_date_with_contextual (d_init, cs0) l').
+    fst (sisort by_date_with_contextual ds0 l) <> fst (sisort by_date_with_contextual ds0 l').
 Proof. exact date_refuted. Qed.
 Print Assumptions C13_date_refuted.
 
-(* Partial: all keys parse in one layout to distinct instants -> chronological; no key has a layout
-   -> the contextual order of the previous theorem. *)
+(* Partial: all keys have one layout and parse in it (equal instants allowed since the repair
+   C13-contextual-ties) -> chronological, ties by the contextual order; no key has a layout -> the
+   contextual order. On such key sets the closure follows one strict total order from its initial
+   state on, whatever it is asked in whatever sequence. *)
 Theorem C13_date_partial : forall (l : list key) f,
   date_pure l = Some f -> NoDup (map kname l) ->
   strict_order_on f l /\
-  (forall arr, Permutation l arr -> fst (sisort by_date_with_contextual (d_init, cs0) arr) = isort f l) /\
+  (forall arr, Permutation l arr -> fst (sisort by_date_with_contextual ds0 arr) = isort f l) /\
   (forall qs, (forall q, In q qs -> In (fst q) l /\ In (snd q) l) ->
-     fst (srun by_date_with_contextual (d_init, cs0) qs) = map (fun q => f (fst q) (snd q)) qs).
+     fst (srun by_date_with_contextual ds0 qs) = map (fun q => f (fst q) (snd q)) qs).
 Proof.
   intros l f H Hnd. destruct (date_pure_sound l f H Hnd) as [Hs [P [Hp0 Hp]]].
   split; [exact Hs|]. split.
   - intros arr Hperm.
-    destruct (sisort_pure by_date_with_contextual P f l Hp arr (d_init, cs0) Hp0) as [E _].
+    destruct (sisort_pure by_date_with_contextual P f l Hp arr ds0 Hp0) as [E _].
     { intros x Hx. eapply Permutation_in; [apply Permutation_sym; exact Hperm|exact Hx]. }
     rewrite E. apply isort_perm_invariant; auto; [apply Hs|]. now apply NoDup_map_inv in Hnd.
-  - intros qs Hq. exact (proj1 (srun_pure by_date_with_contextual P f l Hp qs (d_init, cs0) Hp0 Hq)).
+  - intros qs Hq. exact (proj1 (srun_pure by_date_with_contextual P f l Hp qs ds0 Hp0 Hq)).
 Qed.
 Print Assumptions C13_date_partial.
-(* chronological: the pure order on a one-layout key set compares the parsed instants *)
+(* the two domains, and chronological: the pure order on a one-layout key set compares the parsed
+   instants and falls back to the contextual order only between equal instants *)
 Theorem C13_date_chronological : forall (k : key) (l : list key) i,
   kfmt k = FmtOk (Some i) -> date_dom_layout i (k :: l) = true ->
   date_pure (k :: l) = Some (date_lt i) /\
-  (forall a b ta tb, kdate i a = Some ta -> kdate i b = Some tb -> date_lt i a b = (ta <? tb)%Z).
+  (forall a b ta tb, kdate i a = Some ta -> kdate i b = Some tb ->
+     date_lt i a b = if (ta =? tb)%Z then ctx_lt a b else (ta <? tb)%Z).
 Proof.
   intros k l i Hf Hd. unfold date_pure. rewrite Hf, Hd. split; [reflexivity|].
-  intros a b ta tb Ha Hb. unfold date_lt. now rewrite Ha, Hb.
+  intros a b ta tb. apply date_lt_instants.
 Qed.
+Theorem C13_date_no_layout : forall (k : key) (l : list key),
+  kfmt k = FmtErr -> date_dom_none (k :: l) = true -> date_pure (k :: l) = Some ctx_lt.
+Proof. intros k l Hf Hd. unfold date_pure. now rewrite Hf, Hd. Qed.
+(* the chronological order with its tie-break is a strict total order on any key set *)
+Theorem C13_date_order_total : forall i (l : list key), NoDup (map kname l) -> strict_order_on (date_lt i) l.
+Proof. exact date_lt_strict. Qed.
 
 (* ---- all modes through BuildSorter ---- *)
 (* For every sort mode and modifier: on a key set with distinct names inside the mode's state-free
-   domain (always, for text / numeric / value), the sorter built by BuildSorter sorts every
+   domain (always, for text / numeric / contextual / value), the sorter built by BuildSorter sorts every
    arrangement of the items to the same sequence, the reference sort by one total order. *)
 Theorem C13_mode_deterministic : forall m rv (its : list item) f,
   mode_pure m its = Some f -> NoDup (map item_name its) ->
@@ -236,6 +258,7 @@ Print Assumptions C13_mode_deterministic.
 Theorem C13_mode_always_pure : forall its,
   mode_pure MText its = Some (on_name by_name) /\
   mode_pure MNumeric its = Some (on_name by_name_smart) /\
+  mode_pure MContextual its = Some (on_name ctx_lt) /\
   mode_pure MValue its = Some value_asc.
 Proof. intros its. repeat split. Qed.
 
@@ -291,13 +314,12 @@ Theorem C13_check_sound : forall c, case_wf c = true -> in_domain c = true -> C1
 Proof. exact C13_check_sound_proof. Qed.
 Print Assumptions C13_check_sound.
 
-(* non-vacuity: a mixed-case weekday set and a one-layout date set sort as the calendar says *)
+(* non-vacuity: a mixed-case weekday set with a tie, a non-member and a month sorts as stated *)
 Definition kx (s : string) := mkkey (of_str s) None FmtErr [].
 Example C13_example_weekdays :
-  map kname (fst (sisort by_contextual cs0 [kx "Wed"; kx "tues"; kx "MON"; kx "thurs"; kx "Sunday"]))
-  = map of_str ["Sunday"; "MON"; "tues"; "Wed"; "thurs"] /\
-  ctx_pure [kx "Wed"; kx "tues"; kx "MON"; kx "thurs"; kx "Sunday"] = Some (pos_lt 0).
-Proof. vm_compute. split; reflexivity. Qed.
+  map kname (fst (sisort by_contextual tt [kx "Wed"; kx "tues"; kx "MON"; kx "thurs"; kx "Sunday"; kx "mon"; kx "abc"; kx "May"]))
+  = map of_str ["abc"; "Sunday"; "MON"; "mon"; "tues"; "Wed"; "thurs"; "May"].
+Proof. vm_compute. reflexivity. Qed.
 Example C13_example_numeric :
   let n (s : string) m e := mkkey (of_str s) (Some (FFin m e)) FmtErr [] in
   map kname (isort by_name_smart [kx "5x"; n "10" 5%Z 1%Z; n "9" 9%Z 0%Z; n "1.0" 1%Z 0%Z; kx "abc"; n "1" 1%Z 0%Z; n "0.5" 1%Z (-1)%Z])
